@@ -1,6 +1,6 @@
 (* Executable model of the routing-table admission and update policy of the service (property C12):
    src/service.rs (inject_session_established, connection_updated, discovered, rpc_failure, the
-   PING / PONG branches, UnverifiableEnr), src/discv5.rs (add_enr, remove_node, disconnect_node),
+   PING / PONG branches, UnverifiableEnr, find_enr / the WhoAreYou arm), src/discv5.rs (add_enr, remove_node, disconnect_node),
    src/ipmode.rs (get_contactable_addr), src/handler/mod.rs (verify_enr), on top of the validated
    routing-table model Model/KBucket.v.  Definitions only (no proofs).
 
@@ -164,6 +164,23 @@ Section Admission.
       end
     | _ => (t1, false)
     end.
+
+  (* Service::find_enr: the routing table first (an entry of the table, not the candidate waiting in
+     the pending slot of its bucket; KBucketsTable::entry applies a ready pending node on the way),
+     then the records the running queries hold ([untrusted], in the order the service scans them).
+     Its result answers HandlerOut::WhoAreYou (the "known ENR" the handler verifies a record-less
+     handshake with) and is the record a query's request is addressed with. *)
+  Definition present_rec (t : table) (k : N) : option enr :=
+    match stored t k with
+    | Some (false, v) => Some (rec_of (vid v))
+    | _ => None
+    end.
+  Definition find_enr (t : table) (untrusted : list enr) (id : N) (now : N) : table * option enr :=
+    let t1 := fst (t_entry c t id ALook now) in
+    (t1, match present_rec t1 id with
+         | Some e => Some e
+         | None => find (fun e => e_id e =? id) untrusted
+         end).
 
   (* rpc_failure of a request without user callback: connection_updated(Disconnected) *)
   Definition failure (t : table) (id : N) (now : N) : table * upd :=
